@@ -730,6 +730,11 @@ func c05r4(rc *core.RC) {
 	}
 	for _, s := range specs {
 		t := core.EvalTable(rc.P.Pkg(s.pkg), s.name)
+		if t == nil && s.name == "isWhiteSpace" {
+			// the whitespace class may be written as case labels instead; C05.R7 decides the skippers either way
+			rc.Note(s.pkg+"."+s.name, token.NoPos, "no whitespace table in this package")
+			continue
+		}
 		if t == nil || t.Opaque || t.Len != 256 {
 			rc.Unknown(s.pkg+"."+s.name, token.NoPos, "class table not found or not constant")
 			continue
